@@ -91,29 +91,36 @@ Definition fd_unpack (data : bytes) : res FileDataPdu :=
   do p <- fd_empty;
   do h <- hdr_unpack data;
   let p := fd_with_hdr p h in
-  do _ <- hdr_verify_length_and_checksum h data;
+  do packet_len <- hdr_verify_length_and_checksum h data;
+  let end_of_file_data :=
+    if cf_crc (h_conf (fd_hdr p)) =? CRC_WITH_CRC then packet_len - 2 else packet_len in
   let current_idx := hdr_header_len (fd_hdr p) in
   do st <- (if negb (h_meta (fd_hdr p) =? 0) then
+              if current_idx >=? end_of_file_data then Err ETooShort else
               do b <- py_get data current_idx;
               let rec_cont_state := Z.shiftr (Z.land b 192) 6 in
               let segment_metadata_len := Z.land b 63 in
               let current_idx := current_idx + 1 in
-              if current_idx + segment_metadata_len >=? len data then Err ETooShort else
+              if current_idx + segment_metadata_len >? end_of_file_data then Err ETooShort else
               let metadata := slice data current_idx (current_idx + segment_metadata_len) in
               let current_idx := current_idx + segment_metadata_len in
-              do p <- fd_set_meta p (Some {| sm_state := rec_cont_state; sm_data := metadata |});
-              Ok (p, current_idx)
+              let q := fd_params p in
+              Ok (fd_with_params p
+                    {| fp_data := fp_data q; fp_offset := fp_offset q;
+                       fp_meta := Some {| sm_state := rec_cont_state; sm_data := metadata |} |},
+                  current_idx)
             else Ok (p, current_idx));
   let '(p, current_idx) := st in
   let n := if negb (hdr_large_file (fd_hdr p)) then 4 else 8 in
-  if current_idx + n >=? len data then Err EValue else
+  if current_idx + n >? end_of_file_data then Err EValue else
   do off <- struct_unpack (Z.to_nat n) (slice data current_idx (current_idx + n));
   let q := fd_params p in
   let p := fd_with_params p {| fp_data := fp_data q; fp_offset := off; fp_meta := fp_meta q |} in
   let current_idx := current_idx + n in
-  if current_idx <? len data then
+  if current_idx <? end_of_file_data then
     let q := fd_params p in
-    Ok (fd_with_params p {| fp_data := slice_from data current_idx; fp_offset := fp_offset q; fp_meta := fp_meta q |})
+    Ok (fd_with_params p {| fp_data := slice data current_idx end_of_file_data;
+                            fp_offset := fp_offset q; fp_meta := fp_meta q |})
   else Ok p.
 
 (* dataclass equality of the parameter objects, AbstractPduBase.__eq__ of the headers *)
